@@ -12,15 +12,16 @@ import OidcModel.Go
   usage:  `unfold Gen.f <getters…>; go_leaf`      (add `Go.ok`, `Go.contains`, … to the unfold list as needed)
 -/
 
-/-! simp lemmas that make different spellings of the same Go idiom meet (a hand-written loop and `slices.Contains`, …) -/
+/-! lemmas that make different spellings of the same Go idiom meet (a hand-written loop and `slices.Contains`, …); they are
+    NOT global simp lemmas (that would change the normal forms other proofs rely on): `go_char` hands them to `simp_all` -/
 
-@[simp] theorem Go.any_beq_right {α : Type} [BEq α] [LawfulBEq α] (l : List α) (c : α) :
+theorem Go.any_beq_right {α : Type} [BEq α] [LawfulBEq α] (l : List α) (c : α) :
     Go.any l (fun a => a == c) = l.contains c := by
   unfold Go.any
   rw [Bool.eq_iff_iff]
   simp [List.any_eq_true, List.contains_iff_mem]
 
-@[simp] theorem Go.any_beq_left {α : Type} [BEq α] [LawfulBEq α] (l : List α) (c : α) :
+theorem Go.any_beq_left {α : Type} [BEq α] [LawfulBEq α] (l : List α) (c : α) :
     Go.any l (fun a => c == a) = l.contains c := by
   unfold Go.any
   rw [Bool.eq_iff_iff]
@@ -29,7 +30,7 @@ import OidcModel.Go
   · rintro ⟨x, hx, rfl⟩; exact hx
   · intro h; exact ⟨c, h, rfl⟩
 
-@[simp] theorem Go.contains_eq {α : Type} [BEq α] (l : List α) (c : α) : Go.contains l c = l.contains c := rfl
+theorem Go.contains_eq {α : Type} [BEq α] (l : List α) (c : α) : Go.contains l c = l.contains c := rfl
 
 /-- split every `if` / `match` (after zeta-reducing `have`/`let` binders), then close each branch -/
 syntax "go_leaf" : tactic
@@ -63,4 +64,6 @@ macro_rules
       (try simp only [$[$ids:ident],*])
       (repeat' split)
       all_goals (first | (simp_all [$[$ids:ident],*]; done) | (simp_all [$[$ids:ident],*] <;> omega) | grind
-                       | (simp_all [$[$ids:ident],*]; grind))))
+                       | (simp_all [$[$ids:ident],*]; grind)
+                       | (simp_all [Go.any_beq_right, Go.any_beq_left, Go.contains_eq, $[$ids:ident],*]; done)
+                       | (simp_all [Go.any_beq_right, Go.any_beq_left, Go.contains_eq, $[$ids:ident],*]; grind))))
